@@ -8,7 +8,7 @@ from .seams import Layout
 
 OPTION_KINDS = ('quiet', 'loglevel', 'display', 'keep', 'protall', 'titrate',
                 'chain', 'grid', 'window', 'ref', 'ph', 'param')
-CALL_KINDS = ('single_path', 'single_stream', 'pipeline', 'cli')
+CALL_KINDS = ('single_path', 'single_stream', 'pipeline', 'cli', 'steps')
 PERTURB_KINDS = ('chdir', 'alloc', 'gc', 'relayout', 'clock')
 FAULT_KINDS = ('open-fail', 'read-fail', 'write-torn', 'close-fail',
                'seek-fail', 'crash')
@@ -160,8 +160,13 @@ def gen_perturbations(rng, enabled, wl_params, next_inputs, call_is_rel):
     return out
 
 
-def gen_call(rng, enabled_calls, inp, opts, param, pool, allow_invalid):
+STEP_COUNT = 6   # loadOptions, parameters, container, read, calculate, write
+
+
+def gen_call(rng, enabled_calls, inp, opts, param, pool, allow_invalid, optgen=None):
     kind = rng.choice(sorted(enabled_calls))
+    if kind == 'steps' and (optgen is None or inp.get('natoms', 1) == 0):
+        kind = 'pipeline'
     call = {'kind': kind, 'inputs': [inp['id']], 'optgroups': opts,
             'options': [t for g in opts for t in g], 'param': param}
     if rng.random() < 0.08:
@@ -176,6 +181,37 @@ def gen_call(rng, enabled_calls, inp, opts, param, pool, allow_invalid):
     elif kind in ('single_stream', 'pipeline'):
         call['stream_kind'] = rng.choice(['stringio', 'textio', 'file'])
         call['write_pka'] = rng.random() < 0.8
+    elif kind == 'steps':
+        # step-level API on 2-3 molecules, their steps interleaved by a seeded
+        # scheduler; molecules with the same parameter file may share one
+        # Parameters object, as run.main() does for the files of an invocation
+        n_extra = rng.choice([1, 1, 2])
+        stems = {inp['stem']}
+        mols = [{'input': inp['id'], 'optgroups': opts, 'options': call['options'],
+                 'param': param}]
+        tries = 0
+        while len(mols) < 1 + n_extra and tries < 20:
+            tries += 1
+            o = rng.choice(pool)
+            if o['stem'] in stems or o['natoms'] > 200 or o['natoms'] == 0:
+                continue
+            stems.add(o['stem'])
+            if rng.random() < 0.5:
+                og, op = opts, param
+            else:
+                og, op, _ = optgen(o)
+            mols.append({'input': o['id'], 'optgroups': og,
+                         'options': [t for g in og for t in g], 'param': op})
+        for m in mols:
+            m['stream_kind'] = rng.choice(['stringio', 'textio', 'path'])
+            m['write_pka'] = rng.random() < 0.8
+        sched = [i for i in range(len(mols)) for _ in range(STEP_COUNT)]
+        rng.shuffle(sched)
+        call['mols'] = mols
+        call['schedule'] = sched
+        call['share_parameters'] = rng.random() < 0.6
+        call['inputs'] = [m['input'] for m in mols]
+        call['write_pka'] = True
     elif kind == 'cli':
         call['cli_rel'] = rng.random() < 0.4
         extra = rng.choice([0, 0, 1, 1, 2])
@@ -198,7 +234,7 @@ def gen_call(rng, enabled_calls, inp, opts, param, pool, allow_invalid):
 
 def gen_fault(rng, enabled_faults, call):
     kinds = [k for k in FAULT_KINDS if k in enabled_faults]
-    if call['kind'] == 'cli' or call['kind'] == 'single_path':
+    if call['kind'] in ('cli', 'single_path', 'steps'):
         kinds = [k for k in kinds if k != 'seek-fail']
     if not kinds:
         return None
@@ -273,7 +309,8 @@ def gen_history(seed, wl, cfg=None):
                 inp = rng.choice(INVALID_INPUTS)
             opts, param, optsig = gen_options(rng, en_opts, inp, params)
         history.append((inp, opts, param, optsig))
-        call = gen_call(rng, en_calls, inp, opts, param, pool, True)
+        call = gen_call(rng, en_calls, inp, opts, param, pool, True,
+                        optgen=lambda o: gen_options(rng, en_opts, o, params))
         call_inputs = [by_id.get(i) or next(x for x in INVALID_INPUTS if x['id'] == i)
                        for i in call['inputs']]
         is_rel = (call.get('path_kind') == 'rel') or call.get('cli_rel', False)
@@ -299,6 +336,9 @@ def gen_history(seed, wl, cfg=None):
         pid = s['call'].get('param')
         if pid:
             used_params[pid] = params[pid]
+        for m in s['call'].get('mols', []):
+            if m.get('param'):
+                used_params[m['param']] = params[m['param']]
     return {'seed': seed, 'mode': mode, 'inputs': used, 'params': used_params,
             'steps': steps, 'arm': arm, 'faults_on': bool(en_faults)}
 
